@@ -212,10 +212,17 @@ func (b *Body) checkErrSite(s errSite) errVerdict {
 	// through the captured variable
 	captured := b.Lit != nil && !(v.Pos() >= b.Lit.Pos() && v.Pos() < b.Lit.End())
 	const (
-		live   = 1 // the definition reaches this point
-		unused = 2 // ... and has not been looked at on some path
-		idle   = 4 // before the definition
+		live   = 1  // the definition reaches this point
+		unused = 2  // ... and has not been looked at on some path
+		idle   = 4  // before the definition
+		kNil   = 8  // ... and a test established it nil on some path reaching here
+		kNon   = 16 // ... and a test established it non-nil on some path reaching here
+		pend   = 32 // ... found non-nil by a test and not used in any way since (on some path)
 	)
+	defNil := func(st uint64) bool { return st&kNil != 0 && st&kNon == 0 } // certainly nil here
+	defNon := func(st uint64) bool { return st&kNon != 0 && st&kNil == 0 } // certainly non-nil here
+	clobbered := false
+	var clobPos token.Pos
 	startSeen := false
 	dropped := false
 	var dropPos token.Pos
@@ -226,13 +233,14 @@ func (b *Body) checkErrSite(s errSite) errVerdict {
 		node: func(n ast.Node, state uint64) uint64 {
 			if n == s.Assign || containsNode(n, s.Assign) {
 				startSeen = true
-				return (state &^ idle) | live | unused
+				return (state &^ (idle | kNil | kNon | pend)) | live | unused
 			}
 			if state&live == 0 {
 				return state
 			}
 			used := false
 			redefined := false
+			propagatedHere := false
 			ast.Inspect(n, func(m ast.Node) bool {
 				if l, ok := m.(*ast.FuncLit); ok && l != b.Lit {
 					if usesObj(info, l, v) {
@@ -248,7 +256,7 @@ func (b *Body) checkErrSite(s errSite) errVerdict {
 						used = true
 						switch b.classifyUse(id) {
 						case usePropagate:
-							hasProp = true
+							propagatedHere = true
 						case useTest:
 							if b.testDiverts(id, v) {
 								diverts = true
@@ -258,10 +266,19 @@ func (b *Body) checkErrSite(s errSite) errVerdict {
 				}
 				return true
 			})
+			if propagatedHere && !defNil(state) {
+				hasProp = true // handing on an error that is certainly nil does not surface the failure
+			}
 			if r, ok := n.(*ast.ReturnStmt); ok {
 				if namedResult && len(r.Results) == 0 {
-					hasProp = true
+					if !defNil(state) {
+						hasProp = true
+					}
 					used = true
+				}
+				if !used && defNon(state) && state&pend != 0 && !clobbered && b.errResultIndex() >= 0 && b.classifyReturn(r) != retFailure {
+					// (a return of another, certainly non-nil error maps the failure: fine)
+					clobbered, clobPos = true, r.Pos()
 				}
 				if !used && state&unused != 0 {
 					dropped = true
@@ -272,7 +289,7 @@ func (b *Body) checkErrSite(s errSite) errVerdict {
 				return idle
 			}
 			if used {
-				state &^= unused
+				state &^= unused | pend
 			}
 			if redefined {
 				if state&unused != 0 {
@@ -281,7 +298,32 @@ func (b *Body) checkErrSite(s errSite) errVerdict {
 						dropPos = n.Pos()
 					}
 				}
-				return (state &^ (live | unused)) | idle
+				if defNon(state) && state&pend != 0 && !used && !clobbered {
+					clobbered, clobPos = true, n.Pos()
+				}
+				return (state &^ (live | unused | kNil | kNon | pend)) | idle
+			}
+			return state
+		},
+		edge: func(blk *cfg.Block, i int, state uint64) uint64 {
+			if state&live == 0 {
+				return state
+			}
+			cond := condOf(blk)
+			if cond == nil {
+				return state
+			}
+			var r int
+			if i == 0 {
+				r = condNilness(info, cond, v)
+			} else {
+				r = condNilnessWhenFalse(info, cond, v)
+			}
+			switch r {
+			case +1:
+				return (state &^ kNil) | kNon | pend
+			case -1:
+				return (state &^ (kNon | pend)) | kNil
 			}
 			return state
 		},
@@ -304,6 +346,10 @@ func (b *Body) checkErrSite(s errSite) errVerdict {
 	})
 	if !startSeen {
 		return errVerdict{Site: s, Kind: "ok", Detail: "definition not reachable"}
+	}
+	if clobbered && !dropped {
+		return errVerdict{Site: s, Kind: "continues-after-error", Pos: clobPos,
+			Detail: "on the path where `" + v.Name() + "` was found non-nil (" + b.P.Pos(clobPos) + ") the function goes on — the variable is overwritten by the next step, or a return ignores it — instead of returning the error: the test has the wrong polarity or its failing branch does not divert"}
 	}
 	if dropped {
 		return errVerdict{Site: s, Kind: "dropped", Pos: dropPos,
